@@ -14,5 +14,20 @@ CHECKS = {
     },
 }
 
+CHECKS["C17"] = {
+    "text": "Proof over ALL finite class graphs (model/ClassGraph.v: name map with aliases and non-class names, public/private supers, BFS over "
+            "remaining-supers iterators with a visited set and error short-circuit): every query terminates within an explicit fuel bound "
+            "(C17_terminates); 'derives' answers true only for reflexive-transitive public inheritance and is exact whenever no reachable class lists an "
+            "unresolvable super name (C17_derives_sound/_exact); the full statement is refuted on the faithful model by the F13 witness "
+            "(C17_derives_refuted, known finding); lookups return a declaration of a reachable class, the class's own first, and miss nothing "
+            "(C17_lookup_*, C17_property_lookup); common base is an ancestor-or-self of both; a variant resolves to an unscoped enum listing it; the method "
+            "table's binary search equals a stable filter. The model is tied to typemap/*.rs by differential execution of 6 query kinds on generated graphs "
+            "(diamonds, cycles, self-inheritance, dangling, aliases), and every implementation answer is also judged by an independent reachability oracle.",
+    "technique": "Coq proofs (induction on fuel with closure invariant; measure-based termination) about a hand-written model; model/code tie by differential execution in vm_compute; oracle search",
+    "design_ref": "5 C17",
+    "note": "Trusted: Coq kernel; harness/src/typemap.rs; names are unscoped and live in one module namespace (scoped names '::', several modules/imports and "
+            "QML components are outside the model and covered by C18's check); the Python reachability oracle is used for search only. Known finding F13 listed in known_findings.json.",
+}
+
 NOT_YET = {
 }
